@@ -425,6 +425,13 @@ class ActionTypeHint(Action):
                 if not isinstance(parser_or_action, ActionTypeHint):
                     action = _find_action(parser_or_action, key)
                 if isinstance(action, ActionTypeHint):
+                    try:
+                        import_object(val["class_path"])
+                    except (ImportError, AttributeError, ValueError):
+                        # (a dict that only looks like a class spec, e.g. for a Dict[str, Any] argument, or a class that the
+                        # validation of the value is going to refuse)
+                        num += 1
+                        continue
                     discard_init_args_on_class_path_change(action, prev_val, val)
                     prev_sub_cfg = prev_val.get("init_args")
                     if prev_sub_cfg:
@@ -547,7 +554,7 @@ class ActionTypeHint(Action):
                 if is_subclass_spec(prev_val) and "init_args" in prev_val:
                     ActionTypeHint.discard_init_args_on_class_path_change(
                         self,
-                        prev_val.init_args,
+                        prev_val["init_args"],
                         val.get("init_args"),
                     )
         cfg.update(val, self.dest)
